@@ -187,7 +187,7 @@ fn logic_exprs(nodes: usize, atoms: &[&str], memo: &mut Vec<Vec<String>>) -> Vec
 }
 
 fn match_exprs(t: Tier) -> Vec<String> {
-    let pats = ["1", ">0", "int", "_", "'a'", "<= y"];
+    let pats = ["1", ">0", "int", "_", "'a'", "<= y", "!= 1", "== y", "< 0"];
     let arms = ["x", "(x ? 1 : 2)", "(x || y)", "match y { case _: 1 }", "f(x)", "[x].map(v, v ? 1 : 2)"];
     let scr = ["x", "(x ? y : 1)", "f(x)", "1"];
     let mut out = Vec::new();
@@ -231,6 +231,10 @@ fn misc_exprs() -> Vec<String> {
         // double negation inside the span of a jump
         "x || !!y", "x && !!y", "x ? !!y : z", "x ? y : !!z", "f'{x && !!y}'", "l.map(v, v || !!x)", "match x { case 1: !!y, case _: z }",
         "(x || !!y) ? 1 : 2", "!!x || !!y", "--x < 0 || y", "x || --y > 0",
+        // trailing commas
+        "f(x,)", "[x, y,]", "[x,]", "x.g(y,)", "{'a': x,}", "[7, size(x,)]", "f(x, y,)[0]", "l.map(v, f(v,))", "f'{f(x,)}'", "x ? f(y,) : [z,]",
+        // every comparison pattern
+        "match x { case != y: 1, case == 1: 2, case < 0: 3, case >= y: 4, case <= 0: 5, case > y: 6 }", "[7, match x { case != 1: y }]",
     ] {
         v.push(s.to_string());
     }
@@ -679,7 +683,7 @@ pub fn run(t: Tier) -> i32 {
     let s = Static::new(t);
     let q = Seqs::new(t);
     rep.rule = format!(
-        "programs: {} generated programs (C09's templates in every literal/variable mask, all trees over || && ?: ! with <= {} internal nodes over 4 atoms, match with 0..{} cases over 6 patterns x 6 arms x 4 scrutinees, f-strings, macros with branching bodies, member/index/call chains); for each, every block (program + nested code blocks) is explored as an abstract machine (pc, stack height) over ALL paths: jump targets in [0,len] and forward, no instruction needs more operands than the height, one height per pc, height 1 at the end; the model is bound to the implementation by replaying the real VM trace (hook: block, pc, height before each instruction, height at exit) of every assignment of up to 3 variables over {{true, 0, unbound, 's'}} against the model. vm-sequences: every instruction sequence of length 1..{} over push error/true/false/1, pop, dup, not, add and jmp / jmp-if-true / jmp-if-false with every forward distance 0..len+2 and three out-of-range distances, loaded through the public deserialiser, against a reference small-step VM. Non-trivial = every compiled program / every sequence",
+        "programs: {} generated programs (C09's templates in every literal/variable mask, all trees over || && ?: ! with <= {} internal nodes over 4 atoms, match with 0..{} cases over 9 patterns (literals, every comparison operator, a type, _) x 6 arms x 4 scrutinees, f-strings, macros with branching bodies, member/index/call chains); for each, every block (program + nested code blocks) is explored as an abstract machine (pc, stack height) over ALL paths: jump targets in [0,len] and forward, no instruction needs more operands than the height, one height per pc, height 1 at the end; the model is bound to the implementation by replaying the real VM trace (hook: block, pc, height before each instruction, height at exit) of every assignment of up to 3 variables over {{true, 0, unbound, 's'}} against the model. vm-sequences: every instruction sequence of length 1..{} over push error/true/false/1, pop, dup, not, add and jmp / jmp-if-true / jmp-if-false with every forward distance 0..len+2 and three out-of-range distances, loaded through the public deserialiser, against a reference small-step VM. Non-trivial = every compiled program / every sequence",
         s.progs.len(),
         t.pick(2, 3),
         t.pick(2, 3),
